@@ -22,7 +22,15 @@ RULE = ("random sets of 1..5 state trajectories (lengths 1..10, incl. shorter th
         "Stream flag: sliding_window given as True/False, np.True_/np.False_ (also read out of a bool array), 1/0, np.int64/np.uint8 0/1 with lag >= 2 mostly, "
         "through assigns_to_counts (ragged and padded) and MSM(..., sliding_window=flag).fit(X).tcounts_. "
         "Stream refit: one MSM estimator (max_n_states inferred or given) fitted on 2..4 data sets with differing numbers of observed states; "
-        "tcounts_ after every fit is compared with the brute-force count of that data set alone")
+        "tcounts_ after every fit is compared with the brute-force count of that data set alone; in over half of the refit cases lag_time / "
+        "sliding_window / max_n_states are changed between construction and a fit (set_params, attribute assignment, sklearn clone + set_params) "
+        "and the counts must be those of the options the estimator shows at fit time; every flag case also fits an MSM constructed with other "
+        "options and set to the case's options before the fit. "
+        "Stream unsigned: uint8/uint16/uint32 (and int8/int16) assignments (RaggedArray, 2-D ndarray when the rows are equally long, -1-padded in the "
+        "signed dtypes) whose states include the dtype's largest value (255 / 65535 / 4294967295, the values -1 wraps to; 127 / 32767), "
+        "max_n_states = that value + 1 (+0..2) or inferred; counts are read as "
+        "(row, col, value) triplets of the sparse result and must equal the brute-force pair count and the result for the same "
+        "trajectories held as int64 (ragged and -1-padded); oracle only (the matrices have up to 2^32 rows)")
 TRUSTED = ["translator/tr_counts.py (slice expressions of _transitions_helper -> PySlice.slice_list)",
            "modelled not verified: scipy coo_matrix duplicate summation, NumPy fancy indexing a[np.where(a != -1)]"]
 ASSUMPTIONS = ["-1 occurs only as trailing padding (property wording); state ids are >= 0"]
@@ -61,6 +69,8 @@ def generate(rng, tier):
         cases.append(_gen_flag(rng))
     for _ in range(60 * k):
         cases.append(_gen_refit(rng))
+    for i in range(64 * k):
+        cases.append(_gen_unsigned(rng, i))
     if tier == "thorough":
         # exhaustive small scope: <= 2 trajectories of length <= 4 over 2 states, lag <= 4, both modes
         import itertools
@@ -204,9 +214,76 @@ def _gen_refit(rng):
         trjs = [[rng.randrange(ns) for _ in range(rng.randint(1, 8))] for _ in range(rng.randint(1, 3))]
         fits.append({"trjs": trjs, "form": rng.choice(["ragged", "padded"])})
     top = max(x for f in fits for t in f["trjs"] for x in t) + 1
-    return {"kind": "refit", "fits": fits, "lag": rng.choice([1, 1, 2, 3]),
-            "flag": rng.choice(["True", "False", "np.False_", "0", "1"]),
-            "maxn": None if rng.random() < 0.8 else top + rng.randint(0, 1)}
+    c = {"kind": "refit", "fits": fits, "lag": rng.choice([1, 1, 2, 3]),
+         "flag": rng.choice(["True", "False", "np.False_", "0", "1"]),
+         "maxn": None if rng.random() < 0.8 else top + rng.randint(0, 1)}
+    if rng.random() < 0.6:
+        # options changed between construction and a fit (and between fits): fit must read them when it runs
+        lag, flag, maxn = c["lag"], c["flag"], c["maxn"]
+        for k, f in enumerate(fits):
+            if rng.random() < (0.8 if k == 0 else 0.4):
+                opts = {}
+                for name in rng.sample(["lag_time", "sliding_window", "max_n_states"], rng.choice([1, 1, 2, 3])):
+                    if name == "lag_time":
+                        lag = opts[name] = rng.choice([x for x in (1, 2, 3, 4) if x != lag])
+                    elif name == "sliding_window":
+                        flag = opts[name] = rng.choice([x for x in ("True", "False", "np.False_", "0", "1", "np.True_")
+                                                        if FLAG_TRUTH[x] != FLAG_TRUTH[flag]])
+                    else:
+                        maxn = opts[name] = rng.choice([x for x in (None, top, top + 1, top + 3) if x != maxn])
+                f["set"] = {"how": rng.choice(["set_params", "set_params", "attr", "clone"]), "opts": opts}
+    return c
+
+
+def _refit_params(c):
+    """(lag, flag form, max_n_states, changed-since-construction) in force at each fit of a refit case."""
+    lag, flag, maxn, changed = c["lag"], c["flag"], c["maxn"], []
+    out = []
+    for f in c["fits"]:
+        for name, v in sorted(f.get("set", {}).get("opts", {}).items()):
+            if name == "lag_time":
+                lag = v
+            elif name == "sliding_window":
+                flag = v
+            else:
+                maxn = v
+            changed.append(name)
+        out.append((lag, flag, maxn, sorted(set(changed))))
+    return out
+
+
+UMAX = {"uint8": 255, "uint16": 65535, "uint32": 4294967295, "int8": 127, "int16": 32767}     # largest state a dtype can hold
+
+
+UDECK = ["uint8", "uint16", "uint32", "uint8", "uint16", "uint32", "int8", "int16"]
+
+
+def _gen_unsigned(rng, i=None):
+    """dtype and layout are dealt in turn (i = running number), so that every dtype meets every layout under every seed"""
+    i = rng.randrange(16) if i is None else i
+    dt = UDECK[i % len(UDECK)]
+    top = UMAX[dt]
+    with_top = i % 7 != 6          # one case in seven is a control without the top state
+    pool = [0, 1, 2, top, top, top - 1] if with_top else [0, 1, top - 1, top - 2]
+    ntr = rng.randint(1, 4)
+    if (i // len(UDECK)) % 2 == 0:
+        L = rng.randint(2, 8)
+        lens = [L] * ntr
+    else:
+        lens = [rng.choice([1, 2, 3, 4, 5, 6, 8]) for _ in range(ntr)]
+        if ntr == 1:
+            lens.append(lens[0] + 1)
+    trjs = [[rng.choice(pool) for _ in range(n)] for n in lens]
+    lag = rng.choice([1, 1, 2, 2, 3])
+    if with_top and not any(top in t and len(t) > lag for t in trjs):
+        t = max(trjs, key=len)
+        if len(t) < 2:
+            for x in trjs:           # (all rows, so that an equal-length set stays one)
+                x.append(rng.choice(pool))
+        lag = min(lag, len(t) - 1)
+        t[rng.randrange(len(t))] = top
+    return {"kind": "unsigned", "dtype": dt, "trjs": trjs, "lag": lag, "sliding": rng.random() < 0.6,
+            "maxn": None if rng.random() < 0.3 else top + 1 + rng.choice([0, 0, 0, 1, 2])}
 
 
 def _snap(x):
@@ -306,7 +383,33 @@ def _run_flag(c):
     return {"ragged": _call(assigns_to_counts, _mk_ragged(trjs, "int64"), lag, max_n_states=maxn, sliding_window=_flag(c["flag"])),
             "padded": _call(assigns_to_counts, _mk_padded(trjs, W, "int64"), lag, max_n_states=maxn, sliding_window=_flag(c["flag"])),
             "msm": _call(_msm_counts, _mk_ragged(trjs, "int64"), lag, _flag(c["flag"]), maxn),
-            "msm_padded": _call(_msm_counts, _mk_padded(trjs, W + 1, "int64"), lag, _flag(c["flag"]), maxn)}
+            "msm_padded": _call(_msm_counts, _mk_padded(trjs, W + 1, "int64"), lag, _flag(c["flag"]), maxn),
+            "msm_set": _call(_msm_counts_set, _mk_ragged(trjs, "int64"), lag, _flag(c["flag"]), maxn,
+                             FLAG_TRUTH[c["flag"]], ("set_params", "attr", "clone")[(lag + len(trjs)) % 3])}
+
+
+def _msm_counts_set(X, lag, flag, maxn, truth, how):
+    """An estimator constructed with other counting options and given the wanted ones before the fit."""
+    import functools
+    from enspara.msm import MSM, builders
+    top = max(int(v) for row in X for v in row) + 1
+    est = MSM(lag_time=lag + 1, method=functools.partial(builders.normalize, calculate_eq_probs=False),
+              sliding_window=not truth, max_n_states=(top + 2 if maxn is None else None))
+    est = _set_opts(est, how, {"lag_time": lag, "sliding_window": flag, "max_n_states": maxn})
+    est.fit(X)
+    return est.tcounts_
+
+
+def _set_opts(est, how, opts):
+    if how == "attr":
+        for name, v in opts.items():
+            setattr(est, name, v)
+        return est
+    if how == "clone":
+        import sklearn.base
+        est = sklearn.base.clone(est)
+    est.set_params(**opts)
+    return est
 
 
 def _run_refit(c):
@@ -318,8 +421,81 @@ def _run_refit(c):
     for f in c["fits"]:
         X = _mk_ragged(f["trjs"], "int64") if f["form"] == "ragged" else \
             _mk_padded(f["trjs"], max(len(t) for t in f["trjs"]), "int64")
-        out.append(_call(_msm_counts, X, None, None, None, est=est))
+        if "set" in f:
+            est = _set_opts(est, f["set"]["how"], {k: (_flag(v) if k == "sliding_window" else v)
+                                                   for k, v in f["set"]["opts"].items()})
+        res = _call(_msm_counts, X, None, None, None, est=est)
+        # what the estimator itself shows as its options when it is fitted
+        res["shown"] = [int(est.lag_time), bool(est.sliding_window), None if est.max_n_states is None else int(est.max_n_states)]
+        out.append(res)
     return {"fits": out}
+
+
+def _trip(C):
+    C = C.tocoo()
+    acc = {}
+    for i, j, v in zip(C.row.tolist(), C.col.tolist(), C.data.tolist()):
+        acc[(int(i), int(j))] = acc.get((int(i), int(j)), 0) + int(v)
+    return {"shape": [int(x) for x in C.shape], "trip": sorted([i, j, v] for (i, j), v in acc.items() if v != 0)}
+
+
+def _call_sparse(fn, *a, **k):
+    """Like _call, the result kept as (row, col, value) triplets (the matrices of the unsigned stream have up to 2^32 rows)."""
+    import warnings
+    before = [_snap(x) for x in a]
+    try:
+        with warnings.catch_warnings():
+            warnings.simplefilter("ignore")
+            res = _trip(fn(*a, **k))
+    except Exception as ex:
+        res = {"err": type(ex).__name__}
+    for i, (b, x) in enumerate(zip(before, a)):
+        if b is not None and _snap(x) != b:
+            res["argmod"] = "argument %d (%s) was %s and is %s after the call" % (i, b[0], str(b[1:])[:300], str(_snap(x)[1:])[:300])
+    return res
+
+
+def _run_unsigned(c):
+    from enspara.msm.transition_matrices import assigns_to_counts
+    trjs, dt = c["trjs"], c["dtype"]
+    kw = dict(max_n_states=c["maxn"], sliding_window=c["sliding"])
+    L = max(len(t) for t in trjs)
+    res = {"ragged": _call_sparse(assigns_to_counts, _mk_ragged(trjs, dt), c["lag"], **kw),
+           "ragged64": _call_sparse(assigns_to_counts, _mk_ragged(trjs, "int64"), c["lag"], **kw),
+           "padded64": _call_sparse(assigns_to_counts, _mk_padded(trjs, L + 1, "int64"), c["lag"], **kw)}
+    if not dt.startswith("u"):
+        res["padded"] = _call_sparse(assigns_to_counts, _mk_padded(trjs, L + 1, dt), c["lag"], **kw)
+    if len({len(t) for t in trjs}) == 1:
+        res["rect"] = _call_sparse(assigns_to_counts, np.array(trjs, dtype=dt), c["lag"], **kw)
+        res["rectF"] = _call_sparse(assigns_to_counts, np.asfortranarray(np.array(trjs, dtype=dt)), c["lag"], **kw)
+    return res
+
+
+def _oracle_unsigned(c, r):
+    out = []
+    trjs, lag, sl = c["trjs"], c["lag"], c["sliding"]
+    n = c["maxn"] if c["maxn"] is not None else max(x for t in trjs for x in t) + 1
+    acc = {}
+    for t in trjs:
+        for p in range(len(t) - lag):
+            if sl or p % lag == 0:
+                acc[(t[p], t[p + lag])] = acc.get((t[p], t[p + lag]), 0) + 1
+    want = {"shape": [n, n], "trip": sorted([i, j, v] for (i, j), v in acc.items())}
+    for form in ("ragged", "rect", "rectF", "padded", "ragged64", "padded64"):
+        if form not in r:
+            continue
+        got = {k: v for k, v in r[form].items() if k != "argmod"}
+        if got != want:
+            key = "counts-int64-twin" if form.endswith("64") else "counts-unsigned"
+            tot = sum(v for _, _, v in got.get("trip", []))
+            out.append((key, "%s assignments %s held as %s, lag %d, sliding %s, max_n_states %s: got %s (total %d), expected the pair counts "
+                        "%s (total %d)%s" % (c["dtype"] if not form.endswith("64") else "int64", trjs,
+                                             {"ragged": "RaggedArray", "rect": "2-D ndarray", "rectF": "2-D ndarray (F order)", "padded": "-1-padded ndarray",
+                                              "ragged64": "RaggedArray", "padded64": "-1-padded ndarray"}[form],
+                                             lag, sl, c["maxn"], got, tot, want, sum(v for _, _, v in want["trip"]),
+                                             "" if form.endswith("64") or "trip" not in r["ragged64"] or got == {k: v for k, v in r["ragged64"].items() if k != "argmod"}
+                                             else "; the same trajectories held as int64 give %s" % r["ragged64"])))
+    return out
 
 
 def _argmods(r):
@@ -402,6 +578,10 @@ def _oracle_flag(c, r):
     out = []
     sl = FLAG_TRUTH[c["flag"]]
     want = _brute_of(c["trjs"], c["lag"], sl, c["maxn"])
+    if r["msm_set"].get("mat") != want:
+        out.append(("counts-msm-set-params", "MSM constructed with lag_time=%d, sliding_window=%s and then given lag_time=%d, sliding_window=%s, "
+                    "max_n_states=%s before fit on %s: tcounts_ is %s, expected %s" % (
+                        c["lag"] + 1, not sl, c["lag"], c["flag"], c["maxn"], c["trjs"], r["msm_set"], want)))
     for form in ("ragged", "padded", "msm", "msm_padded"):
         if r[form].get("mat") != want:
             key = "counts-msm" if form.startswith("msm") else "counts-flag"
@@ -414,13 +594,19 @@ def _oracle_flag(c, r):
 
 def _oracle_refit(c, r):
     out = []
-    sl = FLAG_TRUTH[c["flag"]]
-    for k, (f, res) in enumerate(zip(c["fits"], r["fits"])):
-        want = _brute_of(f["trjs"], c["lag"], sl, c["maxn"])
+    for k, (f, res, (lag, flag, maxn, changed)) in enumerate(zip(c["fits"], r["fits"], _refit_params(c))):
+        if res.get("shown") != [lag, FLAG_TRUTH[flag], maxn]:
+            out.append(("msm-options-shown", "after %s the estimator shows (lag_time, sliding_window, max_n_states) = %s, expected %s"
+                        % ([g.get("set") for g in c["fits"][:k + 1]], res.get("shown"), [lag, FLAG_TRUTH[flag], maxn])))
+            continue
+        want = _brute_of(f["trjs"], lag, FLAG_TRUTH[flag], maxn)
         if res.get("mat") != want:
-            out.append(("counts-msm-refit", "one MSM(lag_time=%d, sliding_window=%s, max_n_states=%s) fitted on %s in turn; after fit #%d "
-                        "(data %s) tcounts_ is %s, expected %s" % (c["lag"], c["flag"], c["maxn"], [g["trjs"] for g in c["fits"][:k + 1]],
-                                                                  k, f["trjs"], res, want)))
+            out.append(("counts-msm-set-params" if changed else "counts-msm-refit",
+                        "one MSM(lag_time=%d, sliding_window=%s, max_n_states=%s) fitted on %s in turn, options changed before the fits: %s; "
+                        "at fit #%d (data %s) the estimator shows lag_time=%d, sliding_window=%s, max_n_states=%s but tcounts_ is %s, expected %s"
+                        % (c["lag"], c["flag"], c["maxn"], [g["trjs"] for g in c["fits"][:k + 1]],
+                           [g.get("set") for g in c["fits"][:k + 1]], k, f["trjs"], lag, flag, maxn,
+                           {x: res[x] for x in res if x != "shown"}, want)))
     return out
 
 
@@ -461,6 +647,8 @@ def run_impl(c):
         return _run_flag(c)
     if c.get("kind") == "refit":
         return _run_refit(c)
+    if c.get("kind") == "unsigned":
+        return _run_unsigned(c)
     from enspara.msm.transition_matrices import assigns_to_counts
     from enspara.ra.ra import RaggedArray
     trjs, lag, sl, maxn = c["trjs"], c["lag"], c["sliding"], c["maxn"]
@@ -500,6 +688,8 @@ def oracle(c, r):
         return out + _oracle_flag(c, r)
     if c.get("kind") == "refit":
         return out + _oracle_refit(c, r)
+    if c.get("kind") == "unsigned":
+        return out + _oracle_unsigned(c, r)
     if c["lag"] < 1:
         return out + ([] if all("err" in r[f] for f in ("ragged", "padded", "reversed")) else [("lag-accepted", "lag %d accepted: %s" % (c["lag"], str(r)[:200]))])
     exp = _brute(c)
@@ -529,9 +719,12 @@ def coq_check(c, r):
                                 exp[rec["i"]][0] if c["steps"][rec["i"]]["op"] == "count" else c["steps"][rec["i"]]["trjs"], rec["res"])
                       for rec in r["steps"]])
     if c.get("kind") == "flag":
-        return _conj([_cmp_term(FLAG_TRUTH[c["flag"]], c["lag"], c["maxn"], c["trjs"], r[f]) for f in ("ragged", "msm")])
+        return _conj([_cmp_term(FLAG_TRUTH[c["flag"]], c["lag"], c["maxn"], c["trjs"], r[f]) for f in ("ragged", "msm", "msm_set")])
     if c.get("kind") == "refit":
-        return _conj([_cmp_term(FLAG_TRUTH[c["flag"]], c["lag"], c["maxn"], f["trjs"], m) for f, m in zip(c["fits"], r["fits"])])
+        return _conj([_cmp_term(FLAG_TRUTH[flag], lag, maxn, f["trjs"], m)
+                      for f, m, (lag, flag, maxn, _) in zip(c["fits"], r["fits"], _refit_params(c))])
+    if c.get("kind") == "unsigned":
+        return None      # up to 2^32 x 2^32 matrices: oracle only
     m = r["ragged"]
     if "mat" in m:
         exp = "(Some %s)" % clist(m["mat"], lambda row: clist(row, cn, "nat"), "(list nat)")
@@ -552,8 +745,10 @@ def coq_show(c):
                                                   clist(c["trjs"], lambda t: clist(t, cz, "Z"), "(list Z)"))
     if c.get("kind") == "refit":
         return "[%s]" % "; ".join("assigns_to_counts %s %s %s %s" % (
-            cb(FLAG_TRUTH[c["flag"]]), cz(c["lag"]), copt(c["maxn"], cz, "Z"),
-            clist(f["trjs"], lambda t: clist(t, cz, "Z"), "(list Z)")) for f in c["fits"])
+            cb(FLAG_TRUTH[flag]), cz(lag), copt(maxn, cz, "Z"),
+            clist(f["trjs"], lambda t: clist(t, cz, "Z"), "(list Z)")) for f, (lag, flag, maxn, _) in zip(c["fits"], _refit_params(c)))
+    if c.get("kind") == "unsigned":
+        return "true"
     return "assigns_to_counts %s" % _args(c)
 
 
@@ -563,8 +758,27 @@ def nontrivial(c, r):
     if c.get("kind") == "flag":
         return any(len(t) > c["lag"] for t in c["trjs"]) and len({x for t in c["trjs"] for x in t}) >= 2
     if c.get("kind") == "refit":
-        return len({max(x for t in f["trjs"] for x in t) for f in c["fits"]}) >= 2
+        return len({max(x for t in f["trjs"] for x in t) for f in c["fits"]}) >= 2 or bool(_refit_visible(c))
+    if c.get("kind") == "unsigned":
+        return any(UMAX[c["dtype"]] in t and len(t) > c["lag"] for t in c["trjs"])
     return c["lag"] >= 1 and any(len(t) > c["lag"] for t in c["trjs"]) and len({x for t in c["trjs"] for x in t}) >= 2
+
+
+def _refit_visible(c):
+    """Names of the options whose change between construction and a fit alters that fit's counts."""
+    vis = set()
+    lag0, flag0, maxn0 = c["lag"], c["flag"], c["maxn"]
+    for f, (lag, flag, maxn, changed) in zip(c["fits"], _refit_params(c)):
+        want = _brute_of(f["trjs"], lag, FLAG_TRUTH[flag], maxn)
+        for name, old in (("lag_time", (lag0, flag, maxn)), ("sliding_window", (lag, flag0, maxn)), ("max_n_states", (lag, flag, maxn0))):
+            if name in changed:
+                try:
+                    stale = _brute_of(f["trjs"], old[0], FLAG_TRUTH[old[1]], old[2])
+                except IndexError:
+                    stale = None
+                if stale != want:
+                    vis.add(name)
+    return sorted(vis)
 
 
 def tags(c, r):
@@ -590,6 +804,20 @@ def tags(c, r):
                 t.append("msm-refit-fewer-states")
             if any(b > a for a, b in zip(tops, tops[1:])):
                 t.append("msm-refit-more-states")
+        for f in c["fits"]:
+            if "set" in f:
+                t.append("msm-set-how-" + f["set"]["how"])
+        t += ["msm-set-" + name + "-visible" for name in _refit_visible(c)]
+        return sorted(set(t))
+    if c.get("kind") == "unsigned":
+        top = UMAX[c["dtype"]]
+        t = ["unsigned", "unsigned-" + c["dtype"], "unsigned-rect" if len({len(x) for x in c["trjs"]}) == 1 else "unsigned-ragged-only",
+             "unsigned-maxn-inferred" if c["maxn"] is None else "unsigned-maxn-given"]
+        if any(top in x and len(x) > c["lag"] for x in c["trjs"]):
+            t.append("unsigned-top-state-in-a-pair")
+            t.append("unsigned-top-state-" + c["dtype"])
+        elif not any(top in x for x in c["trjs"]):
+            t.append("unsigned-top-state-absent")
         return t
     t = ["sliding" if c["sliding"] else "strided", "maxn-given" if c["maxn"] is not None else "maxn-inferred"]
     if c["lag"] < 1:
@@ -604,4 +832,8 @@ def tags(c, r):
 ESSENTIAL_TAGS = ["sliding", "strided", "traj-shorter-than-lag", "maxn-inferred", "narrow-dtype", "lag-below-one",
                   "hist-padded", "hist-ragged", "hist-sensitive", "hist-extend", "hist-lump", "hist-set", "hist-realloc", "hist-append",
                   "flag-np-false-visible", "flag-zero-visible", "flag-False-visible", "msm",
-                  "msm-refit-fewer-states", "msm-refit-more-states"]
+                  "msm-refit-fewer-states", "msm-refit-more-states",
+                  "msm-set-lag_time-visible", "msm-set-sliding_window-visible", "msm-set-max_n_states-visible",
+                  "msm-set-how-set_params", "msm-set-how-attr", "msm-set-how-clone",
+                  "unsigned-top-state-uint8", "unsigned-top-state-uint16", "unsigned-top-state-uint32", "unsigned-top-state-int8", "unsigned-top-state-int16",
+                  "unsigned-rect", "unsigned-ragged-only", "unsigned-maxn-inferred"]
